@@ -19,7 +19,9 @@ def prepare(sc: Scratch) -> dict:
     prep.update({
         "target_dir": CACHE / "target-memstore",
         "specs": specs,
-        "jobs": {"quick": 4, "thorough": 4},
+        # MiniSat decides these pointer-heavy, arithmetic-light instances 4-10x faster than Kani's default CaDiCaL (measured)
+        "kani_args": ["--solver", "minisat"],
+        "jobs": {"quick": 6, "thorough": 7},
         "assumptions": [
             "de-async rewrite (async fn -> fn, .await removed, #[async_trait] = identity): the store's operations never suspend once the lock is uncontended",
             "tokio::sync::Mutex shim: an uncontended lock; the concurrency clause of C13 (linearizability under several tasks) is outside the claim - Kani has no concurrency model; the code's argument is one lock per operation",
